@@ -61,7 +61,7 @@ def main(argv):
             ctx.notes.append("proof obligations failed: failing-input search with boosted budget")
             # the driver may still build on its own (it needs the model and tables, not the proofs)
             with common.Lock(os.path.join(common.RUN, "lake.lock")):
-                rc, _, _ = common.sh(["lake", "build", "driver"], cwd=common.LEAN, timeout=3600)
+                rc, _, _ = common.sh(["lake", "build", ctx.driver_target()], cwd=common.LEAN, timeout=3600)
             ctx.driver_ok = rc == 0
         else:
             ctx.driver_ok = True
